@@ -246,6 +246,9 @@ class Engine:
         self.ctx = ctx
         self.atom_ir = {}
         self.py_bool_negations = []
+        self._wire_cache = {}
+        self._by_target = None
+        self._partial = None
 
     def norm(self, e):
         return ir.norm(e, self.ctx)
@@ -348,9 +351,50 @@ class Engine:
             return ('ite', self._b(e[1], True), self._b(e[2], guard), self._b(e[3], guard))
         if k == 'has':
             return self.atom(e)
+        if k == 'sig':
+            wf = self.wire_formula(e)
+            if wf is not None:
+                return wf
         if self.w.bit(e) or guard:
             return self.atom(e)
         raise Undecided(f"not a Boolean expression: {ir.show(e)}")
+
+    def wire_formula(self, s):
+        """A local one-bit signal driven only combinationally and only as a whole is a *wire*: its value is a Boolean
+        function of its drivers (later assignment wins, unassigned = its default).  Returns that function, or None."""
+        t = self.w.t
+        if t is None or s[1] not in t.sigs:
+            return None
+        if s in self._wire_cache:
+            return self._wire_cache[s]
+        self._wire_cache[s] = None                      # a wire that (transitively) reads itself is left alone
+        if self._by_target is None:
+            self._by_target, self._partial = {}, set()
+            for d_ in t.drivers:
+                tn = self.norm(d_.target)
+                self._by_target.setdefault(tn, []).append(d_)
+                if tn[0] != 'sig':
+                    for x in ir.walk(tn):
+                        if x[0] == 'sig':
+                            self._partial.add(x)
+        ds = self._by_target.get(s, [])
+        if not ds or s in self._partial or any(d_.domain != 'comb' for d_ in ds) or not self.w.bit(s):
+            return None
+        ctor = t.sigs[s[1]].ctor
+        if ctor[0] != 'call' or ctor[1] != ('name', 'Signal'):
+            return None
+        kws = dict(ctor[3])
+        init = self.norm(kws.get('init', kws.get('reset', ('const', 0))))
+        if init[0] != 'const' or init[1] not in (0, 1, False, True):
+            return None
+        f = T if init[1] else F
+        try:
+            for d_ in sorted(ds, key=lambda x: (tuple(c.v if hasattr(c, "v") else c for c in x.order), x.seqno)):
+                f = ('ite', self.guard(d_), self._b(self.norm(d_.value)), f)
+        except Undecided:
+            return None
+        self._wire_cache[s] = f
+        return f
 
     # -- guard of a driver -------------------------------------------------------------------
     def frame_formula(self, fr):
@@ -499,6 +543,9 @@ class Engine:
             return self._ev(e[2][1] if f_eval(self._b(e[2][0], True), val) else e[2][2], val)
         if e[0] in ('ifexp', 'phi'):
             return self._ev(e[2] if f_eval(self._b(e[1], True), val) else e[3], val)
+        if e[0] == 'call' and e[1] in (('name', 'Const'), ('name', 'C')) and e[2] and e[2][0][0] == 'const' and \
+                isinstance(e[2][0][1], int) and not e[3]:
+            return ('const', int(e[2][0][1]))          # as a whole assigned value, Const(v, w) is v
         if self.w.bit(e):
             return ('const', int(f_eval(self._b(e), val)))
         if e[0] == 'const' and isinstance(e[1], bool):
@@ -612,6 +659,9 @@ def compare(engine, got, want, assume=None):
         b = _pick(engine, want, val)
         if a != b:
             on = ", ".join(f"{k}={int(v)}" for k, v in sorted(val.items()))
+            if any("<<" in k for k in val):
+                raise Undecided(f"at [{on}] the two sides differ, but a condition involves a construct the analysis treats as opaque "
+                                "(an intermediate wire of unverified width, an unmodelled call): equivalence is not decided (N5)")
             opaque_side = (a[0] == 'sym' and is_config(a[2])) or (b[0] == 'sym' and is_config(b[2]))
             if opaque_side or (a[0] == 'sym' and b[0] == 'sym' and differ(a[2], b[2]) != 'different'):
                 raise Undecided(f"at [{on}] the value is {_vs(a)} where the role table has {_vs(b)}: two expressions outside the "
@@ -734,6 +784,8 @@ def equivalent(engine, f1, f2, assume=None):
         rows += 1
         if f_eval(f1, val) != f_eval(f2, val):
             on = ", ".join(f"{k}={int(v)}" for k, v in sorted(val.items()))
+            if any("<<" in k for k in val):
+                raise Undecided(f"at [{on}] the formulas differ, but an atom involves an opaque construct: not decided (N5)")
             return False, rows, f"at [{on}]"
     return True, rows, None
 
